@@ -190,7 +190,7 @@ def run_metamodel_case(name, via):
 REPO_GRAMMAR = "Model: imports*=Import items*=Item; Import: 'import' importURI=STRING; Item: 'i' name=ID ('r' ref=[Item])?;"
 REPO_CASES = [(p, sc, via) for p in ("FQNImportURI", "PlainNameImportURI", "PlainNameGlobalRepo") for sc in ("str-noimport", "file-noimport", "file-import")
               for via in ("api", "api-file", "gen") if not (p == "PlainNameGlobalRepo" and sc == "file-import")]
-REPO_CASES += [("FQNImportURI", sc, via) for sc in ("falsy-root", "quoted-filename") for via in ("api", "api-file")]
+REPO_CASES += [("FQNImportURI", sc, via) for sc in ("falsy-root", "quoted-filename", "equal-objects") for via in ("api", "api-file")]
 REPO_CASES += [(p, "global-file-then-str", via) for p in ("FQNImportURI", "PlainNameImportURI") for via in ("api", "api-file")]
 
 
@@ -211,6 +211,15 @@ def run_repo_case(prov, scenario, via):
             def __len__(self):
                 return len(self.items)
         classes = [Model]
+    if scenario == "equal-objects":
+        import dataclasses
+
+        @dataclasses.dataclass(frozen=True)
+        class Item:  # immutable user class comparing and hashing by value: two distinct model objects may be equal
+            parent: object = dataclasses.field(compare=False)
+            name: str = ""
+            ref: object = dataclasses.field(default=None, compare=False)
+        classes = [Item]
     mm = metamodel_from_str(REPO_GRAMMAR, global_repository=scenario.startswith("global-"), classes=classes)
     mm.register_scope_providers({"*.*": getattr(providers, prov)()})
     lib = 'li"b.m' if scenario == "quoted-filename" else "lib.m"
@@ -220,6 +229,8 @@ def run_repo_case(prov, scenario, via):
     text = 'import "lib.m" i x r a i y r x' if scenario in ("file-import", "global-file-then-str") else "i x i y r x"
     if scenario == "quoted-filename":
         text = "import 'li\"b.m' i x r a i y r x"
+    if scenario == "equal-objects":
+        text = "i x i y i x r y i x"
     if scenario == "falsy-root":
         text = 'import "lib.m"'
     with open(main, "w") as f:
